@@ -340,8 +340,9 @@ def guardFrom (g : GSt) : List Piece → Bool
 /-- the decidable guard of `C18_partial` -/
 def guard (h : List Piece) : Bool := guardFrom {} h
 
-/-- which of the four guards a history violates (for attributing a spec violation) -/
-def violatedGuards (h : List Piece) : List String :=
+/-- which of the four guards a history violates when the guard's bookkeeping starts in `g0`
+    (for attributing a spec violation) -/
+def violatedGuardsFrom (g0 : GSt) (h : List Piece) : List String :=
   let rec go (g : GSt) : List Piece → List String
     | [] => []
     | p :: ps =>
@@ -362,6 +363,36 @@ def violatedGuards (h : List Piece) : List String :=
                  | some b => if b.inFn then ["stuck-compiler"] else ["leaked-code"]
                  | none => [])
       here ++ go (g.next p) ps
-  go {} h
+  go g0 h
+
+/-- which of the four guards a history violates (no host-supplied names) -/
+def violatedGuards (h : List Piece) : List String := violatedGuardsFrom {} h
+
+/-! ### Host-supplied globals
+
+The embedding program hands the compiler and the VM a set of global names before the first
+piece (risor.Config: the builtins `len`, `print`, … and the default modules `math`, `strings`, …).
+For the compiler they are ordinary VARIABLES of the root symbol table, defined from the start:
+every piece may read them, a top-level assignment (`len = func(v) { … }`, `math = 7`) compiles
+and REBINDS them, and — like every other global — the rebinding must be carried from one run to
+the next (vm.reloadCode copies the previous run's Globals over the freshly loaded ones, which
+loadRootCode has just filled with the host's values again).  In the model a rebinding is an
+ordinary statement in the trace: nothing but the trace determines the value of a global, host
+supplied or not.  `host` lists the names (numbers, like every name of the model). -/
+
+/-- the root symbol table before the first piece: the host's names are variables, no constants -/
+def hostSyms (host : List Nat) : Syms := ⟨host, []⟩
+
+/-- the REPL machine before the first piece, with the host's names defined -/
+def Repl.init (host : List Nat) : Repl := { comp := { syms := hostSyms host } }
+
+/-- the Spec's state before the first piece, with the host's names defined -/
+def SpecSt.init (host : List Nat) : SpecSt := { syms := hostSyms host }
+
+/-- the guard's bookkeeping before the first piece, with the host's names defined -/
+def GSt.init (host : List Nat) : GSt := { syms := hostSyms host }
+
+/-- the decidable guard of `C18_partial_host`: `guard`, evaluated with the host's names defined -/
+def guardHost (host : List Nat) (h : List Piece) : Bool := guardFrom (GSt.init host) h
 
 end Risor.C18
